@@ -10,6 +10,8 @@ in-place update; the statistics family applies the inner constraints first and
 imposes the matching statistic only when it is off target; the input-rewriting
 decorators (masked/insert_missing, partial, synchronized, suppressed, clipped)
 address exactly the given entries in the documented roles/order.
+Round 3: bounded() decides membership on closed intervals, stores only the out-
+of-bounds entries restricted to index, and works on a copy.
 NOT decided: landing in the target set on concrete vectors, idempotence, the
 numerics of impose_bounds / unique.
 """
